@@ -91,6 +91,58 @@ def main():
                 fired.append(len(got) - n0)
         cases.append({"id": len(cases), "kind": "fnpos", "T": T, "var": "", "text": f"$f:@{T} > c", "rets": [c["ret"] for c in cfgs],
                       "fired": fired, "outcome": "ok", "stream": [], "interacted": [], "cfg": {"p": [], "q": [], "a": [], "c": [], "ret": [], "b2": [], "c2": [], "p2": []}})
+    # tag algebra with object identity (TagHeap.tla): random expression histories over a heap of real tag objects;
+    # after every operation the denotation of EVERY object so far is read back through match_tag
+    from ptera.tags import match_tag
+    ALPHA4 = ALPHA + ["D"]
+    EMPTY = {"p": [], "q": [], "a": [], "c": [], "ret": [], "b2": [], "c2": [], "p2": []}
+    for _ in range(150 if tier == "quick" else 3000):
+        objs, ops, snaps = [], [], []
+        for _step in range(rng.randint(3, 9)):
+            if len(objs) < 2 or rng.random() < 0.3:
+                n = rng.choice(ALPHA4)
+                obj, op = getattr(TAG, n), {"op": "tag", "n": n, "i": 0, "j": 0}
+            else:
+                i, j = rng.randrange(len(objs)), rng.randrange(len(objs))
+                obj, op = objs[i] & objs[j], {"op": "and", "n": "", "i": i + 1, "j": j + 1}
+            objs.append(obj)
+            ops.append(op)
+            snaps.append([[n for n in ALPHA4 if match_tag(getattr(TAG, n), o)] for o in objs])
+        cases.append({"id": len(cases), "kind": "algebra", "T": "", "var": "", "text": " ; ".join(f"{o['op']}({o['n'] or str(o['i']) + ',' + str(o['j'])})" for o in ops),
+                      "ops": ops, "snaps": snaps, "outcome": "ok", "stream": [], "interacted": [], "cfg": EMPTY})
+    # declared-only tagged variables: `z: T` without a value is a binding exactly when a probe supplies it; a tag
+    # selector reaches it iff its annotation (string or object spelling) carries the tag
+    nd = 12 if tier == "quick" else 120
+    dsrc, dcfgs = ["from ptera import tag\n"], []
+    for i in range(nd):
+        zt = sorted(rng.sample(ALPHA, rng.choice([1, 1, 2])))
+        pt = sorted(rng.sample(ALPHA, rng.choice([0, 1, 1, 2])))
+        dcfgs.append({"z": zt, "p": pt})
+        dsrc.append(f"def u{i}(p{ann_forms(pt, rng) if pt else ''}):\n    k = 1\n    z{ann_forms(zt, rng)}\n    r = z + p\n    return r\n")
+    dpath = os.path.join(work, "tagworld_decl.py")
+    open(dpath, "w").write("\n".join(dsrc))
+    spec3 = importlib.util.spec_from_file_location("tagworld_decl", dpath)
+    mod3 = importlib.util.module_from_spec(spec3)
+    sys.modules["tagworld_decl"] = mod3
+    spec3.loader.exec_module(mod3)
+    for i, dc in enumerate(dcfgs):
+        fn = getattr(mod3, f"u{i}")
+        for T in ALPHA:
+            for form in ("$x", "*"):
+                text = f"u{i} > {form}:@{T}"
+                names, result, outcome = [], -1, "ok"
+                try:
+                    pr = probing(text, env={f"u{i}": fn, "tag": TAG}, overridable=True, raw=True)
+                    pr.subscribe(lambda d: names.extend(c.name for c in d.values()))
+                    pr.override(70)
+                    with pr:
+                        result = fn(P0)
+                except NameError:
+                    outcome = "NameError"
+                except Exception as ex:
+                    outcome = type(ex).__name__
+                cases.append({"id": len(cases), "kind": "decl", "T": T, "var": "", "text": text, "cfg": dc, "outcome": outcome,
+                              "result": result if isinstance(result, int) else -1, "names": names, "stream": [], "interacted": []})
     interacted = []
     orig_interact = Interactor.interact
 
